@@ -1407,6 +1407,13 @@ pub fn entries() -> Vec<Entry> {
                 "a.b(c)[d]{e}+f|g^h$\\i\nxa.b(c)[d]{e}+f|g^h$\\iy",
                 "é*\nÉcole été",
                 "**??**\nab",
+                // literal patterns that start with a multi-byte character and whose first occurrence in
+                // the body is followed by a word character
+                "ña\nmañana ña",
+                "élodie\nles élodies sont la élodie",
+                // a rejected occurrence before the accepted one (repeat-ladder grows the run)
+                "foo\nfoox foo",
+                "a?b\naxb",
             ]),
             GLOB_EXTRA,
             strs(&["a**\nab", "a*b\na\nb"]),
